@@ -18,8 +18,8 @@ REQUIRED_COUNTERS = ['faults_injected', 'positions_checked', 'seeds_accepted']
 CASE_TIMEOUT = 900
 
 PRE = ('TYPE zt\nfa AS INTEGER\nfb AS STRING\nEND TYPE\nDIM zarr(3) AS INTEGER\nDIM zrec AS zt\nCONST zconst% = 5\n'
-       'zlab1:\n10 zn% = 1\n')
-POST = ('SUB zsubi (p%)\nzsublab: p% = 1\nEND SUB\nFUNCTION zfunci% (p%)\nzfunci% = p%\nEND FUNCTION\n')
+       'CONST zcs$ = "abc"\nzlab1:\n10 zn% = 1\n')
+POST = ('SUB zsubi (p%)\nzsublab: p% = 1\nzlate$ = zcs$\nEND SUB\nFUNCTION zfunci% (p%)\nzfunci% = p%\nEND FUNCTION\n')
 
 T = 'compile:TYPE_MISMATCH'
 S = 'syntax:syntax'
@@ -43,6 +43,12 @@ CATALOGUE = [
     ('cond-loop-until-str', ['DO', 'LOOP UNTIL "a"'], [T], 'inj', 'mpb'),
     ('cond-loop-while-str', ['DO', 'LOOP WHILE "a"'], [T], 'inj', 'mpb'),
     ('cond-record', ['IF zrec THEN zn% = 1'], [T], 'inj', 'mb'),
+    # a literal CONST misused here and used correctly later in the text (positions must not be shared)
+    ('cond-while-const-str', ['WHILE zcs$', 'WEND'], [T], 'inj', 'mpb'),
+    ('cond-if-const-str', ['IF zcs$ THEN zn% = 1'], [T], 'inj', 'mpb'),
+    ('case-const-str', ['SELECT CASE 1', 'CASE zcs$', 'END SELECT'], [T], 'inj', 'mpb'),
+    ('for-to-const-str', ['FOR zi% = 1 TO zcs$', 'NEXT'], [T], 'inj', 'mpb'),
+    ('arg-type-func-const', ['zn% = zfunci%(zcs$)'], [T], 'inj', 'mpbi'),
     ('for-var-str', ['FOR zs$ = 1 TO 2', 'NEXT'], [T], 'inj', 'mpb'),
     ('for-from-str', ['FOR zi% = "a" TO 2', 'NEXT'], [T], 'inj', 'mpb'),
     ('for-to-str', ['FOR zi% = 1 TO "b"', 'NEXT'], [T], 'inj', 'mpb'),
@@ -105,15 +111,15 @@ CATALOGUE = [
     ('stray-end-function', ['END FUNCTION'], [S], 'block', 'm'),
     ('stray-end-select', ['END SELECT'], [S], 'block', 'mp'),
     ('stray-end-type', ['END TYPE'], [S], 'block', 'mp'),
-    ('unclosed-if', ['IF 1 THEN', 'zn% = 1'], [S], 'block', 'mpb'),
+    ('unclosed-if', ['IF 1 THEN', 'zn% = 1'], [S, 'compile:BLOCK_MISMATCH'], 'block', 'mpb'),
     ('unclosed-for', ['FOR zi% = 1 TO 2', 'zn% = 1'], [S, 'compile:BLOCK_MISMATCH'], 'block', 'mpb'),
-    ('unclosed-while', ['WHILE 1', 'zn% = 1'], [S], 'block', 'mpb'),
-    ('unclosed-do', ['DO', 'zn% = 1'], [S], 'block', 'mpb'),
-    ('unclosed-select', ['SELECT CASE 1', 'CASE 1'], [S], 'block', 'mpb'),
-    ('mismatch-if-next', ['IF 1 THEN', 'zn% = 1', 'NEXT'], [S], 'block', 'mpb'),
-    ('mismatch-for-wend', ['FOR zi% = 1 TO 2', 'zn% = 1', 'WEND'], [S], 'block', 'mpb'),
-    ('mismatch-while-loop', ['WHILE 1', 'LOOP'], [S], 'block', 'mpb'),
-    ('mismatch-do-endif', ['DO', 'END IF'], [S], 'block', 'mpb'),
+    ('unclosed-while', ['WHILE 1', 'zn% = 1'], [S, 'compile:BLOCK_MISMATCH'], 'block', 'mpb'),
+    ('unclosed-do', ['DO', 'zn% = 1'], [S, 'compile:BLOCK_MISMATCH'], 'block', 'mpb'),
+    ('unclosed-select', ['SELECT CASE 1', 'CASE 1'], [S, 'compile:BLOCK_MISMATCH'], 'block', 'mpb'),
+    ('mismatch-if-next', ['IF 1 THEN', 'zn% = 1', 'NEXT'], [S, 'compile:BLOCK_MISMATCH'], 'block', 'mpb'),
+    ('mismatch-for-wend', ['FOR zi% = 1 TO 2', 'zn% = 1', 'WEND'], [S, 'compile:BLOCK_MISMATCH'], 'block', 'mpb'),
+    ('mismatch-while-loop', ['WHILE 1', 'LOOP'], [S, 'compile:BLOCK_MISMATCH'], 'block', 'mpb'),
+    ('mismatch-do-endif', ['DO', 'END IF'], [S, 'compile:BLOCK_MISMATCH'], 'block', 'mpb'),
     ('do-loop-both-cond', ['DO WHILE 1', 'LOOP UNTIL 2'], ['compile:BLOCK_MISMATCH'], 'inj', 'mpb'),
     ('next-wrong-var', ['FOR zi% = 1 TO 2', 'NEXT zj%'], ['compile:BLOCK_MISMATCH'], 'inj', 'mpb'),
     ('literal-integer-range', ['zn% = 32768%'], [S], 'inj', 'mpbi'),
